@@ -53,6 +53,7 @@ class Pipeline:
         self.files = {}
         self.sink = {}
         self.warnings = []
+        self.stdout = []
         self.comp = components_hook(lambda: self.cf)
         self.cf = ClassFolder(repo, 'snaskool', self.hook)
         cmds = Lit(repo, 'config').ev(repo.mod('config').assigns['COMMANDS'][-1])
@@ -76,6 +77,10 @@ class Pipeline:
                 return LineFile(self.files[a[0]])
             if f == 'read_bin_file':
                 return bytes(16384)
+        if isinstance(n, ast.Call) and isinstance(n.func, ast.Attribute) and ast.unparse(n.func) in ('sys.stdout.write', 'sys.stderr.write', 'sys.stdout.flush', 'sys.stderr.flush'):
+            if n.func.attr == 'write' and 'stdout' in ast.unparse(n.func):
+                self.stdout.append(str(lit.ev(n.args[0])))
+            return FOLDED_NONE
         if isinstance(n, ast.Name) and n.id in ('ROM128', 'ROM_PLUS2', 'ROM48') and n.id not in lit.env:
             return ('rom-a', 'rom-b')
         if isinstance(n, ast.Call) and isinstance(n.func, ast.Attribute) and isinstance(n.func.value, ast.Name) and n.func.value.id == 'textwrap' and n.func.attr == 'TextWrapper':
